@@ -279,4 +279,86 @@ theorem user_codes (name : Bytes) (a : Py.Key) (p : Option Py.Key) (u : Py.User)
 /-- a privacy key without an authentication key is refused (`ValueError`) -/
 theorem user_priv_needs_auth (name : Bytes) (p : Py.Key) : Py.mkUser name none (some p) = none := rfl
 
+/-! ## The keys a session installs, end to end (`SnmpV3ClientSocket::new` / `set_keys`) -/
+
+/-- algorithm code of a digest, as `user.py` passes it -/
+def authCode : AuthAlg → Nat
+  | .md5 => md5Auth
+  | .sha1 => sha1Auth
+
+theorem new_authCode (a : AuthAlg) (kt : Nat) (hkt : kt = 0 ∨ kt = 64 ∨ kt = 128) :
+    ∃ k0, AuthKey.new (authCode a + kt) = .ok (.digest a k0) := by
+  cases a <;> rcases hkt with h | h | h <;> subst h <;> exact ⟨_, rfl⟩
+
+/-- **C12.session_keys_password**: a session configured with an authentication password and a privacy
+password installs: authentication key = Kul(auth password), and privacy key = the first 16 octets of
+Kul(privacy password) computed with the *authentication* digest (RFC 3414 A.2 with 8.1.1.1 / RFC 3826
+1.2.1): DES key = octets 0..7, pre-IV = octets 8..15; AES key = octets 0..15 -/
+theorem session_keys_password (D : Digests) (hD : D.WF) (a : AuthAlg) (eng pw ppw : Bytes) (seed : Nat)
+    (hpw : pw ≠ []) (hppw : ppw ≠ []) :
+    let kul := fun (p : Bytes) => Spec.localizeKey (D.hash a) (Spec.passwordToKey (D.hash a) p) eng
+    v3Keys D eng (authCode a) pw privDes ppw seed =
+      .ok (.digest a (kul pw), .des ((kul ppw).take 8) (((kul ppw).take 16).drop 8) (seed % 2 ^ 32) Buf.empty) ∧
+    v3Keys D eng (authCode a) pw privAes128 ppw seed =
+      .ok (.digest a (kul pw), .aes ((kul ppw).take 16) (seed % 2 ^ 64) Buf.empty) := by
+  intro kul
+  have hk16 : ∀ p : Bytes, 16 ≤ (kul p).length := by
+    intro p
+    have : (kul p).length = a.keySize := by
+      simp only [kul, Spec.localizeKey]; exact hash_len D hD a _
+    rw [this]; cases a <;> decide
+  have hauth : ∀ k0, asKeyType D (.digest a k0) (authCode a) pw eng = .ok (.digest a (kul pw)) := by
+    intro k0
+    have := (dispatch D hD a k0 pw eng (authCode a) (by cases a <;> decide)).1 hpw
+    exact this
+  have hpd : ∀ k0, asKeyType D (.digest a k0) privDes ppw eng = .ok (.digest a (kul ppw)) := by
+    intro k0
+    exact (dispatch D hD a k0 ppw eng privDes (by decide)).1 hppw
+  have hpa : ∀ k0, asKeyType D (.digest a k0) privAes128 ppw eng = .ok (.digest a (kul ppw)) := by
+    intro k0
+    exact (dispatch D hD a k0 ppw eng privAes128 (by decide)).1 hppw
+  obtain ⟨k0, hnew⟩ := new_authCode a 0 (Or.inl rfl)
+  simp only [Nat.add_zero] at hnew
+  constructor
+  · unfold v3Keys
+    simp only [hnew, bind_ok, hauth, hpd]
+    have hpn : PrivKey.new privDes = .ok (.des (List.replicate 8 0) (List.replicate 8 0) 0 Buf.empty) := rfl
+    simp only [hpn, bind_ok, PrivKey.hasPriv, if_true, AuthKey.getKey]
+    have hd : ¬ (kul ppw).length < desKeyLength := by have := hk16 ppw; unfold desKeyLength; omega
+    simp only [PrivKey.asLocalized, hd, if_false, bind_ok, pure_eq]
+    rfl
+  · unfold v3Keys
+    simp only [hnew, bind_ok, hauth, hpa]
+    have hpn : PrivKey.new privAes128 = .ok (.aes (List.replicate 16 0) 0 Buf.empty) := rfl
+    simp only [hpn, bind_ok, PrivKey.hasPriv, if_true, AuthKey.getKey]
+    have hd : ¬ (kul ppw).length < aesKeyLength := by have := hk16 ppw; unfold aesKeyLength; omega
+    simp only [PrivKey.asLocalized, hd, if_false, bind_ok, pure_eq]
+    rfl
+
+/-- **C12.session_keys_total**: the key plumbing never panics, whatever the codes, secrets and engine id
+(an empty password, a wrong-length localized key, an unknown algorithm are refused with an error) -/
+theorem session_keys_total (D : Digests) (hD : D.WF) (eng : Bytes) (aalg : Nat) (akey : Bytes) (palg : Nat)
+    (pkey : Bytes) (seed : Nat) : (v3Keys D eng aalg akey palg pkey seed).isPanic = false := by
+  have hk : ∀ (k : AuthKey) (c : Nat) (key : Bytes), (asKeyType D k c key eng).isPanic = false :=
+    fun k c key => asKeyType_total D hD k c key eng
+  unfold v3Keys
+  apply bind_noPanic
+  · unfold AuthKey.new; dsimp only; repeat (first | rfl | split)
+  · intro a0 _
+    apply bind_noPanic (hk _ _ _)
+    intro a1 _
+    apply bind_noPanic
+    · unfold PrivKey.new; dsimp only; repeat (first | rfl | split)
+    · intro p0 _
+      split
+      · apply bind_noPanic
+        · unfold AuthKey.new; dsimp only; repeat (first | rfl | split)
+        · intro q0 _
+          apply bind_noPanic (hk _ _ _)
+          intro q1 _
+          apply bind_noPanic
+          · cases p0 <;> simp only [PrivKey.asLocalized] <;> repeat (first | rfl | split)
+          · intro _ _; rfl
+      · rfl
+
 end GufoSnmp.C12
